@@ -429,6 +429,14 @@ type hidden2 struct {
 	Public  *S1 `inject:""`
 }
 
+// embedding has its tagged fields embedded (an interface, a pointer) next to a
+// named one: an embedded field is a field like any other.
+type embedding struct {
+	I1    `inject:""`
+	*S2   `inject:""`
+	Named *S3 `inject:""`
+}
+
 type hidden struct {
 	Public  *S1 `inject:""`
 	private *S2 `inject:""`
@@ -524,6 +532,21 @@ func checkApply(inj inject.Injector, scopes []*mscope, op Op, desc string, class
 		classes["apply-hidden-refused"] = true
 	} else if !legalArg(reflect.ValueOf(h.Public), l1) || h.private != nil || h.Plain != nil {
 		return evid.Fail("apply-hidden", "Apply(hidden): err=%v Public=%v private=%v Plain=%v; %s", herr, h.Public, h.private, h.Plain, desc)
+	}
+	// embedded tagged fields
+	emb := &embedding{}
+	eerr := inj.Apply(emb)
+	lI1, vI1 := resolve(scopes, op.Scope, tI1)
+	lPS2, vPS2 := resolve(scopes, op.Scope, tPS2)
+	lPS3, vPS3 := resolve(scopes, op.Scope, tPS3)
+	if vI1 == "unresolvable" || vPS2 == "unresolvable" || vPS3 == "unresolvable" {
+		if eerr == nil {
+			return evid.Fail("apply-embedded", "Apply of a struct with embedded tagged fields (I1, *S2) and a named one (*S3) succeeded although not all of them can be resolved (I1: %s, *S2: %s, *S3: %s); %s", vI1, vPS2, vPS3, desc)
+		}
+	} else if eerr != nil || !legalArg(reflect.ValueOf(&emb.I1).Elem(), lI1) || !legalArg(reflect.ValueOf(emb.S2), lPS2) || !legalArg(reflect.ValueOf(emb.Named), lPS3) {
+		return evid.Fail("apply-embedded", "Apply of a struct with embedded tagged fields: err=%v I1=%v *S2=%v Named=%v, legal: %s / %s / %s; %s", eerr, emb.I1, emb.S2, emb.Named, show(lI1), show(lPS2), show(lPS3), desc)
+	} else {
+		classes["apply-embedded-fields"] = true
 	}
 	h2 := &hidden2{}
 	herr2 := inj.Apply(h2)
